@@ -23,7 +23,7 @@ APIS = ['str', 'tuple', 'list', 'text', 'block', 'block-multi', 'files_and_bindi
 ONLINE = {'which': ['bind'], 'foreign': ['C01', 'C05', 'C07', 'C10', 'C12', 'C13', 'C20'], 'n': {'quick': 40, 'thorough': 600}}
 REQUIRED_BUCKETS = (['class:' + c for c in CLASSES] + ['api:' + a for a in APIS] + ['shape:fn', 'shape:init', 'shape:new', 'shape:method',
                     'verdict:accepted', 'verdict:rejected', 'scoped', 'accepted-then-injected', 'rejected-then-not-injected', 'varkw-with-denylist',
-                    'special:reregister-with-denylist', 'special:reregister-interactive', 'special:decorated-function', 'special:two-hooks-second-rejected', 'special:dynamic-method-keeps-class-lists', 'special:list-given-as-iterator'])
+                    'special:reregister-with-denylist', 'special:reregister-interactive', 'special:decorated-function', 'special:two-hooks-second-rejected', 'special:dynamic-method-keeps-class-lists', 'special:list-given-as-iterator', 'special:dynamic-method-bare-name'])
 ORACLE_COUNTERS = ['oracle_evals', 'attempts']
 _S = {'plan': None}
 
@@ -56,7 +56,7 @@ def finish(ctx):
 def iter_cases(ctx, rng, n):
   for i in range(n):
     if i % 9 == 8:
-      yield {'special': rng.choice(['reregister-with-denylist', 'reregister-interactive', 'decorated-function', 'two-hooks-second-rejected', 'dynamic-method-keeps-class-lists',
+      yield {'special': rng.choice(['reregister-with-denylist', 'reregister-interactive', 'decorated-function', 'two-hooks-second-rejected', 'dynamic-method-keeps-class-lists', 'dynamic-method-bare-name',
                                           'list-given-as-iterator']),
              'api': rng.choice(['str', 'tuple', 'text', 'block']), 'scope': rng.choice(['', 'sc']), 'spelling': rng.choice(['short', 'mid', 'full'])}
       continue
@@ -257,6 +257,30 @@ def run_special(ctx, case):
       ctx.check(snap.full(gin) == before, 'rejected-binding-changed-config', '%s: rejected binding changed the configuration' % kind)
     inst = gin.get_configurable(alpha.K)()
     ctx.check((inst.a, inst.b, inst.meth()[1]) == (3, 0, 7), 'accepted-binding-not-injected', '%s: instance has a=%r b=%r meth->%r' % (kind, inst.a, inst.b, inst.meth()[1]))
+  elif kind == 'dynamic-method-bare-name':
+    # a method that became a configurable through a dynamic-registration config (class registered before or not) is still only
+    # addressable through its class name
+    import importlib
+    from vf import pkgtree
+    if 'tree' not in _S:
+      _S['tree'] = pkgtree.Tree()
+    pk = _S['tree'].new_package('c11')
+    alpha = importlib.import_module(pk + '.alpha')
+    if n % 2:
+      gin.register('K', module=pk + '.alpha')(alpha.K)
+    dyn = 'from __gin__ import dynamic_registration\nimport %s.alpha\n' % pk
+    gin.parse_config(dyn + '%s.alpha.K.other.o = 7\n' % pk)
+    for label, fn in (('bind_parameter', lambda: gin.bind_parameter('other.o', 9)), ('tuple key', lambda: gin.bind_parameter(('sc', 'other', 'o'), 9)),
+                      ('config text', lambda: gin.parse_config('other.o = 9\n')), ('block', lambda: gin.parse_config('sc/other:\n  o = 9\n')),
+                      ('module-qualified without class', lambda: gin.bind_parameter('%s.alpha.other.o' % pk, 9))):
+      before = snap.full(gin)
+      try:
+        fn()
+        ctx.check(False, 'method-addressable-without-class-name', 'after %s.alpha.K.other was configured under dynamic registration, the bare method name is accepted (%s)' % (pk, label))
+      except Exception:  # pylint: disable=broad-except
+        ctx.count('oracle_evals')
+      ctx.check(snap.full(gin) == before, 'rejected-binding-changed-config', '%s: rejected binding (%s) changed the configuration' % (kind, label))
+    ctx.check(gin.get_configurable(alpha.K)().other()[1] == 7, 'accepted-binding-not-injected', '%s: method received %r' % (kind, gin.get_configurable(alpha.K)().other()))
   elif kind == 'reregister-with-denylist':
     conf = gin.external_configurable(f, name, module=module)
     bind_via(gin, api, scope, sel, 'y', 1)              # fine, and looks the configurable up through this spelling
